@@ -698,6 +698,11 @@ pub fn c20(tier: Tier) -> i32 {
                 own_inputs.push((format, f.bytes()));
             }
         }
+        // blank lines before and after the records (LF and CRLF, with and without the last terminator):
+        // bytes that remain in the buffer after the last record without being another item
+        for f in rec_files(format, 2, &[0, 1], &[1, 2, 3, 4], false) {
+            own_inputs.push((format, f.bytes()));
+        }
     }
     let t_own = par_sweep(own_inputs.len() as u64, 4, |idx, l| {
         use crate::env::{Chunk, Fault, FaultKind, IntPat, Src};
@@ -715,7 +720,32 @@ pub fn c20(tier: Tier) -> i32 {
                         // reference: plain stepping
                         let mut rdr = seq_io::$m::Reader::with_capacity(mk_src(), cap);
                         let mut it = rdr.records();
-                        let steps: Vec<String> = (0..10).map(|_| show(it.next())).collect();
+                        let mut hints: Vec<(usize, Option<usize>)> = vec![];
+                        let steps: Vec<String> = (0..10)
+                            .map(|_| {
+                                hints.push(it.size_hint());
+                                show(it.next())
+                            })
+                            .collect();
+                        let mut it2 = seq_io::$m::Reader::with_capacity(mk_src(), cap).into_records();
+                        let hints2: Vec<(usize, Option<usize>)> = (0..10)
+                            .map(|_| {
+                                let h = it2.size_hint();
+                                it2.next();
+                                h
+                            })
+                            .collect();
+                        // the size hint taken before step i brackets the number of items still to come
+                        let ended = steps.iter().position(|s| s == "None").map_or(false, |e| steps[e..].iter().all(|s| s == "None"));
+                        for (name, hs) in [("records()", &hints), ("into_records()", &hints2)] {
+                            for (i, &(lo, hi)) in hs.iter().enumerate() {
+                                let to_come = steps[i..].iter().filter(|s| *s != "None").count();
+                                if hi.map_or(false, |h| h < to_come) || (ended && lo > to_come) {
+                                    problems.push(format!("{} {}: size_hint() = {:?} after {} steps with {} items still to come", stringify!($m), name, (lo, hi), i, to_come));
+                                    break;
+                                }
+                            }
+                        }
                         for k in 0..5usize {
                             let mut rdr = seq_io::$m::Reader::with_capacity(mk_src(), cap);
                             let mut it = rdr.records().skip(k);
@@ -857,7 +887,7 @@ pub fn c20(tier: Tier) -> i32 {
         Report {
             property: "C20".into(),
             tier: tier.name().into(),
-            rule: format!("every FASTA record with m = 0..{} sequence lines over the line menu {{x, empty, xy, x<CR>y}} x LF/CRLF x final terminator x followed by another record or not, obtained from a record set under 3 capacities: ALL 2^(m+2) sequences of next/next_back steps on seq_lines() with len()/size_hint() checked after every step, items, meeting ends, sticky end; adaptor menu (enumerate().rev(), rev().enumerate(), zip, skip(0..n+1), collect, rposition, len) on the iterator after every (front, back) prefix; RecordSetIter (both formats) size hint + fused, also on ONE set reused over all batches (plain loop; exact(3),exact(1),...; exact(2),(3),(1),...) at every (third) capacity so that later, smaller batches carry stale entries; RecordsIter / RecordsIntoIter end sticky incl. after an error (FASTQ defect family, {} files); records()/into_records() skip(k), nth(k), count() against plain stepping on valid and invalid inputs, also with one transient source error at call 0..4", max_lines, fq.len()),
+            rule: format!("every FASTA record with m = 0..{} sequence lines over the line menu {{x, empty, xy, x<CR>y}} x LF/CRLF x final terminator x followed by another record or not, obtained from a record set under 3 capacities: ALL 2^(m+2) sequences of next/next_back steps on seq_lines() with len()/size_hint() checked after every step, items, meeting ends, sticky end; adaptor menu (enumerate().rev(), rev().enumerate(), zip, skip(0..n+1), collect, rposition, len) on the iterator after every (front, back) prefix; RecordSetIter (both formats) size hint + fused, also on ONE set reused over all batches (plain loop; exact(3),exact(1),...; exact(2),(3),(1),...) at every (third) capacity so that later, smaller batches carry stale entries; RecordsIter / RecordsIntoIter end sticky incl. after an error (FASTQ defect family, {} files); records()/into_records() size_hint() before every one of 10 steps brackets the items still to come, skip(k), nth(k), count() against plain stepping on valid and invalid inputs and inputs with 1..4 leading/trailing blank lines (LF/CRLF), also with one transient source error at call 0..4", max_lines, fq.len()),
             exhaustive: true,
             assumptions: vec!["line contents are drawn from a menu; the iterator logic depends only on the number of lines".into()],
             extra: json!({"states_note": "states = (record, consumed-front, consumed-back) triples; transitions = iterator steps executed"}),
